@@ -5,6 +5,7 @@ import LpModel.C17
 import LpProofs.C17.Basic
 import LpProofs.C17.Tables
 import LpProofs.C17.Round
+import LpProofs.C17.Hist
 namespace Lp.C17
 open Lp.Dec
 
